@@ -37,7 +37,8 @@ type Execution struct {
 	Unfinished []string // must-finish goroutines that did not finish
 	Trace      []Event  // record mode
 	Notes      []Note
-	Nontrivial bool // record mode: >= 1 context switch between goroutines that touch a common object
+	Nontrivial bool // >= 1 context switch between two goroutines that operate on a common synchronisation object
+	Switches   int  // context switches in the exploring phase
 	Objects    int
 }
 
@@ -265,9 +266,13 @@ func (c *controller) run(body func()) *Execution {
 			e.Blocked = append(e.Blocked, g.name+": "+g.pend.blockedOn())
 		}
 	}
-	if w.record {
-		e.Nontrivial = nontrivial(w)
+	for _, p := range w.swPairs {
+		if p[0] < 64 && p[1] < 64 && w.gs[p[0]].shared&(1<<uint(p[1])) != 0 {
+			e.Nontrivial = true
+			break
+		}
 	}
+	e.Switches = len(w.swPairs)
 	return e
 }
 
@@ -298,27 +303,6 @@ func (p *pend) blockedOn() string {
 		}
 		return s
 	}
-}
-
-// nontrivial: some context switch g1 -> g2 where g1 and g2 touch a common object.
-func nontrivial(w *World) bool {
-	byName := map[string]*G{}
-	for _, g := range w.gs {
-		byName[g.name] = g
-	}
-	var prev *G
-	for _, ev := range w.Trace {
-		g := byName[ev.G]
-		if prev != nil && g != prev {
-			for o := range g.objs {
-				if _, ok := prev.objs[o]; ok {
-					return true
-				}
-			}
-		}
-		prev = g
-	}
-	return false
 }
 
 func (c *controller) backtrack() bool {
